@@ -259,3 +259,152 @@ Proof.
   induction evs as [|e evs IH] using rev_ind; [apply init_inv|].
   rewrite run_snoc. now apply step_inv.
 Qed.
+
+(* ------------------------------------------------------------ theorems that need no freshness of ids *)
+Theorem own_reply c c0 h0 lv evs k w b :
+  good_cfg c = true ->
+  getw k (run c (init c0 h0 lv) evs) = Some w -> w_stat w = DoneOk b ->
+  In (EDeliver (w_id w) b) evs.
+Proof.
+  intros G Gw S. destruct (run_inv c c0 h0 lv evs G) as (_ & _ & R).
+  destruct (R k w Gw) as (_ & B & _). auto.
+Qed.
+
+Theorem never_parked c c0 h0 lv evs :
+  good_cfg c = true -> parked (run c (init c0 h0 lv) evs) = 0%nat.
+Proof. intro G. now destruct (run_inv c c0 h0 lv evs G) as (_ & P & _). Qed.
+
+Lemma alookup_in {V} k (l : list (N * V)) v : alookup N.eqb k l = Some v -> exists k', In (k', v) l.
+Proof.
+  induction l as [|[k' v'] r IH]; cbn; [discriminate|].
+  destruct (N.eqb k k'); intro H.
+  - inversion H; subst. exists k'. now left.
+  - destruct (IH H) as [k2 I]. exists k2. now right.
+Qed.
+
+Theorem no_leak c c0 h0 lv evs :
+  good_cfg c = true ->
+  quiescent (run c (init c0 h0 lv) evs) = true -> table (run c (init c0 h0 lv) evs) = [].
+Proof.
+  intros G Q. destruct (run_inv c c0 h0 lv evs G) as (T & _ & _).
+  set (s := run c (init c0 h0 lv) evs) in *.
+  unfold quiescent in Q. apply andb_true_iff in Q. destruct Q as [QW QP].
+  apply (@alookup_all_none Z owner Z.eqb Zeqb_eq). intro id.
+  destruct (alookup Z.eqb id (table s)) as [o|] eqn:L; [exfalso|reflexivity].
+  destruct (T id o L) as (k & w & -> & Gw & I & E & [[W _]|D]).
+  - unfold getw in Gw. destruct (alookup_in _ _ _ Gw) as [k' IN].
+    rewrite forallb_forall in QW. specialize (QW _ IN). cbn in QW.
+    unfold is_waiting in QW. now rewrite W in QW.
+  - destruct (premoves s); [contradiction|discriminate].
+Qed.
+
+(* an outcome, once reached, never changes (any configuration) *)
+Theorem outcome_stable c s e k x :
+  stat_of k s = Some x -> x <> Waiting -> stat_of k (step c s e) = Some x.
+Proof.
+  unfold stat_of. intros H NW.
+  destruct (getw k s) as [w|] eqn:G; [|discriminate]. inversion H; subst x; clear H.
+  assert (KEEP : forall k' w', (k' = k -> w_stat w' = w_stat w) ->
+            forall s', getw k s' = Some w ->
+            match getw k (setw k' w' s') with Some w0 => Some (w_stat w0) | None => None end
+            = Some (w_stat w)).
+  { intros k' w' Hs s' G'. rewrite getw_setw. destruct (N.eqb k k') eqn:E.
+    - apply N.eqb_eq in E. now rewrite Hs by auto.
+    - now rewrite G'. }
+  destruct e as [k1 wf|id wf|wf|id b|id|k1|k1|id| |]; cbn [step].
+  - destruct (getw k1 s) eqn:G1; [now rewrite G|].
+    assert (k1 <> k) by (intros ->; congruence).
+    destruct (negb (live s)); [|destruct wf];
+      (rewrite getw_setw_neq by auto); unfold getw in *; cbn; now rewrite G.
+  - unfold write_nocb. destruct (live s && c_store_nocb c && negb wf);
+      [|destruct (live s && c_store_nocb c)]; unfold getw in *; cbn; now rewrite G.
+  - unfold write_nocb. cbn.
+    destruct (live s && c_store_nocb c && negb wf);
+      [|destruct (live s && c_store_nocb c)]; unfold getw in *; cbn; now rewrite G.
+  - destruct (alookup Z.eqb id (table s)) as [[k1|tok]|]; [| |now rewrite G].
+    + destruct (getw k1 s) as [w1|] eqn:G1; [|now rewrite G].
+      unfold signal.
+      assert (k1 = k -> w1 = w) by (intros ->; congruence).
+      destruct (w_stat w1) eqn:S1, (c_cap c) eqn:CC;
+        try (destruct (w_tok w1 <? _)%nat; [|destruct (c_nonblock c)]);
+        unfold add_premove, park; cbn -[getw setw];
+        try (change (getw k (mkSt ?a ?b ?d ?t (waiters ?s1) ?p ?q)) with (getw k s1));
+        apply KEEP; auto; cbn; intro EK; specialize (H EK); subst w1; try congruence.
+    + destruct (tok <? c_cap c)%nat; [|destruct (c_nonblock c)];
+        unfold getw in *; cbn; now rewrite G.
+  - destruct (remove1 id (premoves s)); unfold getw in *; cbn; now rewrite G.
+  - destruct (getw k1 s) as [w1|] eqn:G1; [|now rewrite G].
+    destruct (w_stat w1) eqn:S1; try now rewrite G.
+    destruct (w_tok w1); [now rewrite G|]. destruct (w_resp w1); [|now rewrite G].
+    rewrite getw_setw. destruct (N.eqb k k1) eqn:E; [|now rewrite G].
+    apply N.eqb_eq in E. subst k1. congruence.
+  - destruct (getw k1 s) as [w1|] eqn:G1; [|now rewrite G].
+    destruct (w_stat w1) eqn:S1; try now rewrite G.
+    assert (k1 <> k) by (intros ->; congruence).
+    destruct (c_tmo_removes c); unfold set_table; cbn -[getw setw];
+      try (change (getw k (mkSt ?a ?b ?d ?t (waiters ?s1) ?p ?q)) with (getw k s1));
+      rewrite getw_setw_neq by auto; now rewrite G.
+  - destruct (c_pong_removes c); unfold getw in *; cbn; now rewrite G.
+  - unfold getw in *; cbn; now rewrite G.
+  - unfold getw in *; cbn; now rewrite G.
+Qed.
+
+Lemma outcome_stable_run c s evs k x :
+  stat_of k s = Some x -> x <> Waiting -> stat_of k (run c s evs) = Some x.
+Proof.
+  revert s. induction evs as [|e evs IH]; intros s H N; [exact H|].
+  cbn. apply IH; [now apply outcome_stable|exact N].
+Qed.
+
+(* the timer of a waiting caller fires: it returns the timeout error *)
+Theorem timeout_fires c s k w :
+  getw k s = Some w -> w_stat w = Waiting -> stat_of k (step c s (ETimeout k)) = Some (DoneErr 1).
+Proof.
+  intros G W. cbn [step]. rewrite G, W. unfold stat_of.
+  destruct (c_tmo_removes c); unfold set_table; cbn -[getw setw];
+    try (change (getw k (mkSt ?a ?b ?d ?t (waiters ?s1) ?p ?q)) with (getw k s1));
+    now rewrite getw_setw_eq.
+Qed.
+
+(* a caller whose reply never comes ends with an error or is still waiting —
+   never with a body *)
+Theorem no_reply_no_body c c0 h0 lv evs k w :
+  good_cfg c = true ->
+  getw k (run c (init c0 h0 lv) evs) = Some w ->
+  (forall b, ~ In (EDeliver (w_id w) b) evs) ->
+  w_stat w = Waiting \/ exists e, w_stat w = DoneErr e.
+Proof.
+  intros G Gw NR. destruct (w_stat w) eqn:S; [now left| |right; eauto].
+  exfalso. apply (NR body). eapply own_reply; eauto.
+Qed.
+
+(* after any history a fresh request completes with the body of its reply *)
+Theorem fresh_ok c c0 h0 lv evs k b :
+  good_cfg c = true ->
+  let s := run c (init c0 h0 lv) evs in
+  live s = true -> getw k s = None ->
+  stat_of k (run c s [ESend k false; EDeliver (id_of (ctr s + 1)) b; EWake k]) = Some (DoneOk b).
+Proof.
+  intros G s LV FR. destruct (good_cfg_shape c G) as [n ->].
+  cbn [run fold_left]. 
+  set (id := id_of (ctr s + 1)).
+  assert (S1 : step (mkCfg (S n) true true false false) s (ESend k false) =
+     setw k (mkW (ctr s + 1) id None 0 Waiting)
+          (set_table (aupsert Z.eqb id (OWaiter k) (table s))
+             (mkSt (ctr s + 1) (hbc s) (live s) (table s) (waiters s) (premoves s) (parked s)))).
+  { cbn [step]. rewrite FR, LV. reflexivity. }
+  rewrite S1. clear S1.
+  set (s1 := setw k _ _).
+  assert (L1 : alookup Z.eqb id (table s1) = Some (OWaiter k)) by (subst s1; cbn [table setw set_table]; apply tl_up_eq).
+  assert (G1 : getw k s1 = Some (mkW (ctr s + 1) id None 0 Waiting)) by (subst s1; apply getw_setw_eq).
+  assert (S2 : step (mkCfg (S n) true true false false) s1 (EDeliver id b) =
+     add_premove id (setw k (mkW (ctr s + 1) id (Some b) 1 Waiting) s1)).
+  { cbn [step]. rewrite L1, G1. unfold signal. cbn. reflexivity. }
+  rewrite S2. clear S2.
+  set (s2 := add_premove id _).
+  assert (G2 : getw k s2 = Some (mkW (ctr s + 1) id (Some b) 1 Waiting)).
+  { subst s2. unfold add_premove. cbn -[getw setw].
+    change (getw k (setw k (mkW (ctr s + 1) id (Some b) 1 Waiting) s1) = Some (mkW (ctr s + 1) id (Some b) 1 Waiting)).
+    apply getw_setw_eq. }
+  cbn [step]. rewrite G2. cbn. unfold stat_of. now rewrite getw_setw_eq.
+Qed.
